@@ -560,6 +560,8 @@ class Flow:
                         out |= self._operand_origins(t["args"][i], (), (bb, None), stack)
                 return out
         ta = transparent_args(name, self.extra)
+        if ta is None and t["f"].get("res"):
+            ta = transparent_args(t["f"].get("def"), self.extra)  # e.g. `<I as IntoIterator>::into_iter`
         if ta is None and t["f"].get("def") in ("std::clone::Clone::clone", "std::borrow::ToOwned::to_owned",
                                                  "std::ops::Deref::deref", "std::ops::DerefMut::deref_mut"):
             ta = [0]  # user impls of Clone/Deref are value-preserving too
